@@ -48,11 +48,11 @@ Proof.
   destruct (nb <? 1) eqn:E5; [reflexivity|]. destruct (ne <? 2) eqn:E6; [reflexivity|].
   rewrite Z.ltb_ge in E4, E5, E6. destruct H as [H|[H|[H|H]]]; try lia. rewrite (memZ_true _ _ H) in E3. discriminate.
 Qed.
-Lemma rooms_rejects h w ys xs own : nodupb ys = false \/ nodupb xs = false -> reset_rooms h w ys xs own = Raise ValueError.
+Lemma rooms_rejects h w ys xs own : gapsb ys = false \/ gapsb xs = false -> reset_rooms h w ys xs own = Raise ValueError.
 Proof.
   intros H. unfold reset_rooms, rooms_grid.
-  destruct (nodupb ys) eqn:E1; cbn [negb]; [|reflexivity].
-  destruct (nodupb xs) eqn:E2; cbn [negb]; [|reflexivity]. destruct H; discriminate.
+  destruct (gapsb ys) eqn:E1; cbn [negb]; [|reflexivity].
+  destruct (gapsb xs) eqn:E2; cbn [negb]; [|reflexivity]. destruct H; discriminate.
 Qed.
 Lemma draws_only_value_error g n lo hi k x :
   (Leaf (rchoice g n) (Err x) -> x = ValueError) /\ (Leaf (rints g lo hi) (Err x) -> x = ValueError) /\ (Leaf (rsample g n k) (Err x) -> x = ValueError).
